@@ -36,7 +36,7 @@ def T(k):
 
 
 class Pair:
-    def __init__(self, root, backend):
+    def __init__(self, root, backend, split=False):
         from dvc_objects.fs.local import LocalFileSystem
 
         from dvc_data.hashfile.db import HashFileDB
@@ -55,9 +55,23 @@ class Pair:
             self.odb.add_bytes(oid, data)
             self.dirhash[d] = oid
 
+        # split storage: the cache holds only part of the file objects, a remote holds everything (a partially fetched
+        # workspace); listings, metadata and bytes must not depend on where an object happens to be
+        self.remote = None
+        if split:
+            self.remote = HashFileDB(self.fs, os.path.join(root, "remote"))
+            for k, b in FILES.items():
+                self.remote.add_bytes(MD5[k], b)
+            for d, oid in self.dirhash.items():
+                self.remote.add_bytes(oid, canonical_dir_bytes({k[len(d) + 1:]: MD5[k] for k in LAZY[d]}))
+            for k in ("data/sub/baz", "other/x", "foo"):
+                os.unlink(self.odb.oid_to_path(MD5[k]))
+
         def new(name):
             idx = DataIndex.open(os.path.join(root, name + ".db")) if backend.startswith("sqlite") else DataIndex()
             idx.storage_map.add_cache(ObjectStorage((), self.odb))
+            if self.remote is not None:
+                idx.storage_map.add_remote(ObjectStorage((), self.remote))
             return idx
 
         self.lazy, self.explicit = new("lazy"), new("explicit")
@@ -161,7 +175,7 @@ def run_trace(case):
 
     root = tlc.scratch_dir("c17-")
     try:
-        pair = Pair(root, case["backend"])
+        pair = Pair(root, case["backend"], split=bool(case.get("split")))
 
         def other_index():
             o = DataIndex()
@@ -194,7 +208,9 @@ def run_trace(case):
                 reloads = loads["n"] - before
                 lz, ex, again = _nonull(lz), _nonull(ex), _nonull(again)
                 events.append({"act": {"op": op, "args": args}, "lazy": lz, "explicit": ex, "again": again, "loaded": ld,
-                               "reloads": reloads, "content_ok": bool(lz.get("ok", True))})
+                               "reloads": reloads,
+                               # reading a file through the adaptor gives the bytes held in storage (an exception is not that)
+                               "content_ok": bool(lz.get("ok", op != "FsCat"))})
         finally:
             Tree.load = classmethod(real_load)
         pair.lazy.close()
@@ -225,7 +241,7 @@ def sim_cases(num, depth, seed):
             a = to_json(st["act"])
             ops.append({"op": a["op"], "args": list(a["args"])})
         if ops:
-            cases.append({"id": i, "ops": ops, "backend": ["sqlite", "memory", "sqlite-reopened"][i % 3]})
+            cases.append({"id": i, "ops": ops, "backend": ["sqlite", "memory", "sqlite-reopened"][i % 3], "split": i % 4 == 1})
     return cases
 
 
@@ -243,6 +259,11 @@ def directed_cases():
     for backend in ("memory", "sqlite", "sqlite-reopened"):
         for op, args in singles:
             cases.append({"id": n, "ops": [{"op": op, "args": args}, {"op": "Iter", "args": ["", False]}], "backend": backend})
+            n += 1
+    # split storage (cache holds part of the objects, a remote all): every adaptor read as first access, and after a listing
+    for op, args in [("FsCat", [k]) for k in FILES] + [("FsInfo", [k]) for k in keys] + [("FsLs", [d]) for d in dirs]:
+        for first in ([], [{"op": "FsFind", "args": [""]}]):
+            cases.append({"id": n, "ops": first + [{"op": op, "args": args}], "backend": "memory", "split": True})
             n += 1
     return cases
 
